@@ -9,7 +9,7 @@
    PeriodicalExecutor before the fix and is now a regression case of the correspondence run
    (corpus of tools/props/c11.py: reverting the fix makes ./check C11 fail on it). *)
 From Coq Require Import List ZArith Bool.
-From GZ Require Import C11.Model C11.ProofsA C11.Proofs.
+From GZ Require Import C11.Model C11.ProofsA C11.Proofs C11.Containers C11.ProofsC.
 Import ListNotations.
 Open Scope Z_scope.
 
@@ -48,7 +48,7 @@ Definition pinned_exec (cfg : config) (s : state) (e : ev) : state :=
 Definition pinned_run (cfg : config) (s : state) (sched : list ev) : state :=
   fold_left (pinned_exec cfg) sched s.
 
-Definition cfg2 : config := mkCfg 2 1000 [].
+Definition cfg2 : config := mkCfg 2 1000 [] nonempty.
 
 (* Add 1, Add 2 (threshold: handed over, confirmed, flusher about to run the callback
    on [1;2]); Add 3 returns (container = [3]); client 1: Add 4 removes [3;4] under the
@@ -282,4 +282,61 @@ Theorem buffer_swap_refuted : forall gr,
 Proof.
   intros gr. exists [BAdd 1; BRemoveAll], [BAdd 2; BRemoveAll; BAdd 3], (mkSl 0 1).
   cbv zeta. split; [left; reflexivity|]. split; reflexivity.
+Qed.
+
+(* ------------------------------------------------------------------ *)
+(* Seeded change C11-9: the default branch of hasTasks answers !val.IsZero() instead of true
+   ("a zero-valued batch of an aggregating container is not a flush").  Bulk/Chunk executors and
+   the bulk inserters hand out slices and cannot tell the difference
+   (ProofsC.iszero_same_on_measured_kinds); a container that coalesces its tasks into a struct /
+   number / string / flag / pointer can hand out the zero value of that type for a batch that holds
+   tasks - [shape_of SStruct EMark]: struct{First int64; Rest []int64}, {-1, nil} when nothing was
+   added, {0, nil} for the batch that holds only task 0.  It keeps the contract hasTasks states
+   ([family_honest]), so with the real hasTasks every theorem of Props.v holds for it; with the
+   seeded one task 0 is accepted, removed and never passed to Execute, on every path. *)
+Definition zcfg (mw : Z) : config := iszero_cfg mw 1000 [] (shape_of SStruct EMark).
+Definition rcfg (mw : Z) : config := container_cfg mw 1000 [] (shape_of SStruct EMark).
+
+(* by Wait / by an explicit Flush (which also answers false) *)
+Definition z_wait : list ev := [EvCall 0 (CAdd 0 0); EvC 0; EvCall 0 CWait; EvC 0; EvC 0; EvC 0; EvC 0; EvC 0; EvC 0; EvC 0].
+Definition z_flush : list ev := [EvCall 0 (CAdd 0 0); EvC 0; EvCall 0 CFlush; EvC 0; EvC 0; EvC 0; EvC 0].
+(* on reaching the threshold (1): handed over to the flusher, confirmed, dropped there *)
+Definition z_threshold : list ev :=
+  [EvCall 0 (CAdd 0 1); EvC 0; EvB 0 false; EvC 0; EvB 0 false; EvB 0 false; EvB 0 false; EvC 0; EvB 0 false; EvB 0 false].
+(* on the periodic flush *)
+Definition z_tick : list ev :=
+  [EvCall 0 (CAdd 0 0); EvC 0; EvB 0 false; EvTick; EvB 0 true; EvB 0 false; EvB 0 false; EvB 0 false; EvB 0 false].
+
+Definition all_returned (s : state) : Prop := Forall (fun p => p = CIdle) (cl s).
+Definition dropped0 (s : state) : Prop :=
+  all_returned s /\ accepted s = [0] /\ done_tasks s = [] /\ places s = [].
+Definition ran0 (s : state) : Prop :=
+  all_returned s /\ accepted s = [0] /\ executed s = [[0]] /\ places s = [].
+
+Theorem iszero_variant_refuted :
+  honest (shape_of SStruct EMark) /\
+  Forall (fun p : Z * list ev =>
+            dropped0 (run (zcfg (fst p)) (init 1) (snd p)) /\ ran0 (run (rcfg (fst p)) (init 1) (snd p)))
+         [(100, z_wait); (100, z_flush); (1, z_threshold); (100, z_tick)].
+Proof.
+  split; [apply family_honest|].
+  repeat constructor; vm_compute; try reflexivity; repeat constructor.
+Qed.
+
+(* ... and in general: with the seeded hasTasks the run of every batch [h] that the container renders
+   as a zero value of an unknown kind loses h (ProofsC.unfaithful_loses_tasks_l), for EVERY container
+   shape - while the same container is served exactly once by the real hasTasks *)
+Theorem iszero_variant_loses_every_zero_batch : forall mw iv bd sh h,
+  0 < mw -> h <> [] ->
+  bv_kind (sh h) <> KNil -> is_coll (bv_kind (sh h)) = false -> bv_zero (sh h) = true ->
+  has_tasks (sh h) = true /\
+  let s := run (iszero_cfg mw iv bd sh) (init 1) (adds0 h ++ flush0) in
+  cl s = [CIdle] /\ accepted s = h /\ done_tasks s = [] /\ places s = [].
+Proof.
+  intros mw iv bd sh h Hm Hne Hk Hc Hz. split; [apply unknown_kinds_always_run; assumption|].
+  assert (Hr : runs (iszero_cfg mw iv bd sh) h = false).
+  { cbn [runs iszero_cfg]. unfold has_tasks_iszero. rewrite Hz.
+    destruct (bv_kind (sh h)); try reflexivity; discriminate. }
+  destruct (unfaithful_loses_tasks_l (iszero_cfg mw iv bd sh) h Hm Hne Hr) as (H1 & H2 & H3 & H4 & _).
+  cbv zeta. auto.
 Qed.
